@@ -14,17 +14,48 @@
   message (and any outside the two finishing combinations) leaves the resend state exactly as it
   was; `processAKE_strict_nonfinishing`: outside the finishing combinations message state, peer key,
   the whole key context, session id and role flag of an encrypted session are unchanged.
-  NOT covered by theorems: the AKE context itself under rejected AKE messages (they legitimately re-initialise it;
-  behavioural equivalence is decided by the twin-run oracle of the `reject` profile: the same genuine
-  traffic is run with and without the rejected message and all plaintexts, errors, events and
-  IsEncrypted values are compared). KNOWN FINDING: before any version is committed, a rejected
-  message of an allowed version commits the version (DESIGN §8, known_findings.json).
+
+  The whole of `Conversation.Receive` (Proofs/RejectFrame.lean), PARTIAL status.
+  `receive_error_frame_partial`: for EVERY byte string, environment and start state, if `Receive` reports an error
+  `e` then the conversation afterwards agrees with the conversation before on every field `RejFrame` lists —
+  never changed: msgState, keys (whole key-management context), theirKey, smp, resendMsgs/mayRetransmit/
+  retransmitting, ourKeys, policies, fragmentSize, friendlyQuery, errHandler, heartbeatLastSent,
+  lastMessageStateChange, sentRevealSig; version, theirTag and ourCurrentKey: unchanged for every complete
+  (non-fragment) message (repaired code), sticky for fragments; ourTag: only generated if it was 0; ssid: unchanged
+  while encrypted; fragCtx: kept or reset to empty; wsState: unchanged unless a plaintext is delivered; free: the
+  AKE context, the injection queue (flushed), randomness/signing tapes, events, diagnostics —
+  under two hypotheses, both shown necessary by witnesses:
+    * `¬ EnvFail e`: the error is not a failure of the environment / configuration (errShortRandomRead from the
+      randomness source or the signing oracle, "no private key to sign …", "no possible key for current version"):
+      `c06_counterexample_envfail` (a Signature message that completes the exchange, then the next DH key cannot be
+      drawn: error reported, conversation encrypted);
+    * `NoAuthentic K c`: no header/body passes the five guards of the data path under the current keys
+      (`noAuthentic_of_not_encrypted`: holds outside encrypted sessions; `receive_error_frame_or_authentic` is the
+      hypothesis-free disjunctive form): `c06_counterexample_authentic` (an AUTHENTIC data message with a corrupt
+      TLV: error, text dropped, nothing sent, but keys rotated and counter recorded).
+  `c06_counterexample_ssid`: the session id of a conversation that is NOT encrypted is overwritten by a rejected
+  Reveal-Signature message (so `ssid` is in the frame only while encrypted).
+  Fragments (the property: "covered when they arrive between complete messages"): a rejected message that arrives
+  as the LAST fragment is processed after the fragment's own prefix committed the version / bound the peer tag,
+  and the rollback of `receiveDecoded` goes back only to that point: `c06_witness_fragment_commits_version`,
+  `c06_witness_fragment_binds_theirTag` (the same messages unfragmented: `c06_witness_unfragmented_unbound`).
+  `c06_witness_ake_created`: what is left of the former finding version+akeCreated: the empty AKE context.
+  `c06_rejected_continuation_partial` / `_nonfragment`: the conversation after a rejected message that delivers no
+  plaintext EQUALS the conversation before up to ake, fragCtx, injections (and ssid while not encrypted, ourTag
+  if it was 0), so every continuation starts from the same keys, counters, SMP and resend state.
+  Per class: `receive_error_frame_ake` (processAKE), `_data` (receiveDataMessage: any data message that fails a
+  guard), `_fragment` (receiveFragment, any outcome), `_query`/`_tagged` (any outcome).
+  Ignored key exchange messages (repaired code): `processAKE_vt` (the key exchange never touches version, peer tag,
+  key in use), `receiveDecoded_ignored_ake_frame`, `receive_ignored_ake_frame`, `c06_witness_ignored_dhkey`.
+  NOT covered by theorems: what a rejected key exchange message does to the AKE CONTEXT itself (it may be
+  re-initialised; behavioural equivalence is decided by the twin-run oracle of the `reject` profile).
 -/
 
 import Proofs.ConvData
 import Proofs.ConvLife
 import Proofs.AkeGuard
 import Proofs.Fixes2
+import Proofs.RejectFrame
 namespace Otr.C06
 open Otr
 
@@ -57,5 +88,85 @@ theorem processAKE_pending_kept : type_of% @Otr.processAKE_pending_kept := @Otr.
 
 /-- repaired code: outside the two finishing combinations the whole key context is unchanged, whatever is queued -/
 theorem processAKE_strict_nonfinishing : type_of% @Otr.processAKE_strict_nonfinishing := @Otr.processAKE_strict_nonfinishing
+
+/-! ### the whole of `Receive` (Proofs/RejectFrame.lean) -/
+
+/-- what a rejected message leaves alone: the frame (a structure of field-wise clauses) -/
+abbrev RejFrame := @Otr.RejFrame
+
+/-- errors that report a failure of the environment or configuration, not a verdict on the message -/
+abbrev EnvFail := @Otr.EnvFail
+
+/-- no header and body pass the five guards of the data path under the current message state and keys -/
+abbrev NoAuthentic := @Otr.NoAuthentic
+
+/-- C06, frame of a rejected message (partial: `¬ EnvFail e`, `NoAuthentic`; fragments keep version/tag sticky only) -/
+theorem receive_error_frame_partial : type_of% @Otr.receive_error_frame_partial := @Otr.receive_error_frame_partial
+
+/-- the same without `NoAuthentic`: the frame holds, or an authentic data message exists under the current keys -/
+theorem receive_error_frame_or_authentic : type_of% @Otr.receive_error_frame_or_authentic := @Otr.receive_error_frame_or_authentic
+
+/-- field by field: msgState, keys, theirKey, smp, resend state, ourKeys, policies never change; version, theirTag, ourCurrentKey not for complete messages -/
+theorem c06_rejected_never_changes : type_of% @Otr.c06_rejected_never_changes := @Otr.c06_rejected_never_changes
+
+/-- version chosen and tags bound: the conversation after a rejected message equals the one before up to ake, fragCtx, injections (ssid while not encrypted) -/
+theorem c06_rejected_continuation_partial : type_of% @Otr.c06_rejected_continuation_partial := @Otr.c06_rejected_continuation_partial
+
+/-- complete (non-fragment) message, any conversation: equal up to ake, fragCtx, injections, ssid while not encrypted, ourTag if it was 0 -/
+theorem c06_rejected_continuation_nonfragment : type_of% @Otr.c06_rejected_continuation_nonfragment := @Otr.c06_rejected_continuation_nonfragment
+
+/-- key exchange messages: an error that is not a failure of the environment ⇒ the frame -/
+theorem receive_error_frame_ake : type_of% @Otr.processAKE_rej := @Otr.processAKE_rej
+
+/-- data messages: failing one of the five guards ⇒ the frame (error reported or suppressed) -/
+theorem receive_error_frame_data : type_of% @Otr.receiveDataMessage_rej := @Otr.receiveDataMessage_rej
+
+/-- fragments: accepted, discarded or rejected, a fragment respects the frame -/
+theorem receive_error_frame_fragment : type_of% @Otr.receiveFragment_rej := @Otr.receiveFragment_rej
+
+/-- query messages respect the frame whatever the outcome -/
+theorem receive_error_frame_query : type_of% @Otr.receiveQueryMessage_rej := @Otr.receiveQueryMessage_rej
+
+/-- whitespace-tagged plaintexts respect the frame (without the `wsState` clause) whatever the outcome -/
+theorem receive_error_frame_tagged : type_of% @Otr.receiveTaggedPlaintext_rej := @Otr.receiveTaggedPlaintext_rej
+
+/-- `NoAuthentic` holds for every conversation that is not encrypted -/
+theorem noAuthentic_of_not_encrypted : type_of% @Otr.noAuthentic_of_not_encrypted := @Otr.noAuthentic_of_not_encrypted
+
+/-- `NoAuthentic` is satisfiable for encrypted conversations too (constant cryptography) -/
+theorem noAuthentic_dummy : type_of% @Otr.noAuthentic_dummy := @Otr.noAuthentic_dummy
+
+/-- the key exchange never touches protocol version, peer instance tag or long-term key in use -/
+theorem processAKE_vt : type_of% @Otr.processAKE_vt := @Otr.processAKE_vt
+
+/-- repaired code: an ignored key exchange message (no error, no reply, state kind unchanged) leaves version, tag, key in use -/
+theorem receiveDecoded_ignored_ake_frame : type_of% @Otr.receiveDecoded_ignored_ake_frame := @Otr.receiveDecoded_ignored_ake_frame
+
+/-- the same at the level of `Receive` -/
+theorem receive_ignored_ake_frame : type_of% @Otr.receive_ignored_ake_frame := @Otr.receive_ignored_ake_frame
+
+/-- witness: an ignored DH-Key message leaves only the empty AKE context -/
+theorem c06_witness_ignored_dhkey : type_of% @Otr.c06_witness_ignored_dhkey := @Otr.c06_witness_ignored_dhkey
+
+/-- witness: a rejected DH-Commit creates the AKE context (version, key in use, tag are put back) -/
+theorem c06_witness_ake_created : type_of% @Otr.c06_witness_ake_created := @Otr.c06_witness_ake_created
+
+/-- witness: a rejected message delivered as a single fragment still commits the version -/
+theorem c06_witness_fragment_commits_version : type_of% @Otr.c06_witness_fragment_commits_version := @Otr.c06_witness_fragment_commits_version
+
+/-- witness: a rejected message delivered as a single v3 fragment still binds the peer instance tag -/
+theorem c06_witness_fragment_binds_theirTag : type_of% @Otr.c06_witness_fragment_binds_theirTag := @Otr.c06_witness_fragment_binds_theirTag
+
+/-- witness: the same message unfragmented leaves version, tag and key in use alone -/
+theorem c06_witness_unfragmented_unbound : type_of% @Otr.c06_witness_unfragmented_unbound := @Otr.c06_witness_unfragmented_unbound
+
+/-- counterexample to the full statement: `ssid` of a conversation that is not encrypted -/
+theorem c06_counterexample_ssid : type_of% @Otr.c06_counterexample_ssid := @Otr.c06_counterexample_ssid
+
+/-- counterexample: without `NoAuthentic` (authentic data message with a corrupt TLV: keys move, error reported) -/
+theorem c06_counterexample_authentic : type_of% @Otr.c06_counterexample_authentic := @Otr.c06_counterexample_authentic
+
+/-- counterexample: without `¬ EnvFail e` (exchange completed, next DH key cannot be drawn) -/
+theorem c06_counterexample_envfail : type_of% @Otr.c06_counterexample_envfail := @Otr.c06_counterexample_envfail
 
 end Otr.C06
